@@ -73,3 +73,12 @@ MUTANTS["C02"] = [
     ("empty-acl-means-no-acl", "annet/gen.py", "        if not ctx.args.no_acl:\n            acl_rules = generators.compile_acl_text(res.acl_text(), device.hw.vendor)", "        if not ctx.args.no_acl and res.acl_text():\n            acl_rules = generators.compile_acl_text(res.acl_text(), device.hw.vendor)"),
     # (not filtering old in _old_new_per_device is an equivalent mutant: _diff_and_patch filters old again)
 ]
+
+MUTANTS["C03"] = [
+    ("strip-drops-level", "annet/annlib/patching.py", "        children = strip_unchanged(children)\n        passed.append((op, row, children, d_match))", "        children = strip_unchanged(children) if op != Op.MOVED else []\n        passed.append((op, row, children, d_match))"),
+    ("mark_unchanged-any", "annet/annlib/patching.py", "            if all(x[0] == Op.UNCHANGED for x in children):", "            if children and any(x[0] == Op.UNCHANGED for x in children) or not children:"),
+    ("base_diff-index-off-by-one", "annet/annlib/rulebook/common.py", "        elif block_in_disorder or index != old_indexes[row]:", "        elif block_in_disorder or index > old_indexes[row]:"),
+    ("diff_lines-loses-level", "annet/annlib/tabparser.py", "                yield from self._diff_lines(children, _level + 1, sign)", "                yield from self._diff_lines(children, min(_level + 1, 2), sign)"),
+    ("pre-diff-no-moved", "annet/annlib/diff.py", "    ops = [(order, op) for op, order in ops_order.items()]", "    ops = [(order, op) for op, order in ops_order.items() if op != Op.MOVED]"),
+    ("removed-children-flat", "annet/annlib/rulebook/common.py", "            children = call_diff_logic(diff_pre[row][\"subtree\"], old[row], odict(), pops + (Op.REMOVED,))", "            children = call_diff_logic(diff_pre[row][\"subtree\"], old[row], odict(), pops + (Op.REMOVED,))[:3]"),
+]
